@@ -13,7 +13,9 @@ LEVEL_TEXT = ('Bounded-exhaustive runtime check: every ordered tree shape with <
               'compared with inverse laws and an independent leaf-path enumerator; NNX States built from the same shapes '
               '(and from real module graphs) are pushed through to_flat_state/from_flat_state/to_pure_dict/'
               'replace_by_pure_dict/split/filter/merge/|/- for all pairs of sub-states, with a sortedness invariant hooked '
-              'on FlatState construction.')
+              'on FlatState construction.'
+              ' Split / filter are also checked for FIRST-match membership against an independent reading of the filters;'
+              ' States contain string keys that look like integers.')
 LEVEL_NOTE = ('Trusts the reference path enumerator and prune_empty in vf/props/c16.py; is_leaf true at the root and '
               'separators occurring in keys are outside the property domain and not generated.')
 TECHNIQUE = 'runtime monitoring: inverse-law and set-law oracles + FlatState sortedness invariant hook on the real functions'
